@@ -21,7 +21,7 @@ META = {
     "title": "Parsing any text terminates promptly and fails only with diagnostics",
     "category": "proof",
     "design_ref": "DESIGN.md §5 C07",
-    "lean_modules": ["XdslProofs.C07"],
+    "lean_modules": ["XdslProofs.C07", "XdslProofs.C07Scan", "XdslProofs.C07SsaNames"],
     "text": (
         "PARTIAL (by design, DESIGN.md §5 C07). Proved in Lean for the model of MLIRLexer (xdsl/utils/mlir_lexer.py "
         "with the C07 repairs; every token regex hand-transcribed as a total matcher on code points that carry CPython's "
@@ -31,11 +31,26 @@ META = {
         "EOF-terminated stream or one of the six lexer ParseErrors whose span is non-empty and inside the text; "
         "lex_ignores_numeric_space — no decision depends on isnumeric/isspace (numbers start at ASCII digits only). The "
         "model is tied to /repo on every run by differential lexing (token kinds and spans, or error id and span) of "
-        "mutated corpus chunks, token soups, short random strings and every code point's class membership. NOT proved, "
+        "mutated corpus chunks, token soups, short random strings and every code point's class membership. Also proved, for the "
+        "model of AttrParser._raw_scan_balanced (the raw character scan over the body of an unregistered dialect attribute / "
+        "type, which bypasses the lexer; bracket stack + string skipping as one structurally recursive function): "
+        "scan_steps_le — the two loops together iterate at most once per code point after the start position, plus one; "
+        "scan_ok_steps — a successful scan never reads past the `>` it returns; scan_cases — the outcome is the position of a "
+        "`>` inside the text at or after the start, or one of the function's three ParseErrors, whose position lies inside the "
+        "text at the offending closer / opening quote. Tied to /repo by calling the real function on generated bodies "
+        "(result, error kind, position). And for the model of the parser's SSA-name table (Parser.resolve_operand, "
+        "_register_ssa_definition, the value scope of regions, the final 'values used but not defined' test; every Python "
+        "subscript carries an explicit `internal` outcome for the missing key): run_no_internal / run_cases — from any table "
+        "state no sequence of uses, definitions and region boundaries reaches a KeyError / IndexError, a parse ends with "
+        "`done` or one of six ParseErrors; resolve_forward_again, resolve_keeps_forward — forward references `%x#i`, `%x#j` "
+        "of an undefined name are all kept and answered with the same placeholders; define_clears_forward. Tied to /repo "
+        "by generated modules of generic operations, regions and block arguments: IR / which ParseError of parse_module "
+        "against the model on the module's event sequence. NOT proved, "
         "explored only (failing-input search): the parser proper with all ~80 dialects registered (parse_module / "
         "parse_attribute / parse_type, allow_unregistered both ways) must end with IR, ParseError or a "
         "DiagnosticException (VerifyException, ...), within a CPU budget scaled to the input length, and growth families "
-        "(unterminated literals, nesting, long numbers/identifiers, many ops/regions/attributes) must not grow "
+        "(unterminated literals — also inside unregistered dialect attribute bodies —, nesting, long numbers/identifiers, "
+        "many ops/regions/attributes) must not grow "
         "super-linearly. Every other exception class, budget overrun, uninterruptible hang or super-linear family is a "
         "failing input, shrunk by delta debugging and keyed by (function that raised, exception class)."
     ),
@@ -54,7 +69,8 @@ META = {
         "fuzzed, but a UnicodeEncodeError on them is not counted. Operation verification (module.verify()) is not run: "
         "only diagnostics raised while parsing are in scope. Time: CPU time of the parse (ITIMER_VIRTUAL) against a "
         "budget of 2 s + 0.5 ms per character — two to three orders of magnitude above the normal rate — plus a "
-        "wall-clock watchdog for code stuck inside C (regex); growth families flag only ratio > 4x linear over a 16x size "
+        "wall-clock watchdog for code stuck inside C (regex); growth-family members shorter than 1000 characters run under "
+        "this same guard (an exponential matcher shows there at 25-30 characters), larger ones flag only ratio > 4x linear over a 16x size "
         "span with the larger run > 0.5 s CPU and slower than 10 us/char overall, re-measured twice. Failures that do not reproduce in a fresh process "
         "(state leaking between parses in one Context) are reported in the evidence, not as violations."
     ),
@@ -66,7 +82,18 @@ META = {
         "registered custom-syntax op name / inside a dialect or builtin attribute or type; an SSA-reference family (operand uses rewritten to %x#k for k in {0, 1, arity-1, arity, "
         "arity+1, huge} where arity comes from the definition %x:n, also %x:0, %x#, %x#-1, %x#0x1, undefined and forward-referenced "
         "names with indices, changed result counts; applied to corpus chunks and, as a deterministic sweep, to every registered "
-        "custom-syntax op name in small operand templates); a deterministic sweep of every "
+        "custom-syntax op name in small operand templates); a forward-reference family (small-scope enumeration over generic ops: a value of arity 1-3 used with every pair of "
+        "tuple indices 0..arity before / around its definition — in one op, two ops, inside regions, never defined, defined "
+        "twice, wrong type; the same pairs in two-operand templates of custom-syntax ops; uses of `%x#i, %x#j` inserted in "
+        "front of definitions of corpus chunks; generated SSA-name programs — 1-4 names of arity 0-3, uses anywhere, "
+        "definitions as results or block arguments, nested regions, sometimes a wrong index / type / second or missing "
+        "definition — whose outcome is compared with the Lean model); a raw-scan family (bodies of unregistered dialect attributes / types in "
+        "pretty and opaque syntax, as attribute, type, dictionary entry, result / argument / block-argument type: fixed and "
+        "random balanced bodies with strings — half of them >= 32 characters —, escapes, `->`, nested brackets, each under 12 "
+        "truncation-style edits: last / first / random quote deleted, last / random closer or opener deleted, the closing "
+        "`>` deleted, closer inserted, closers swapped, backslash before the last quote, cut anywhere; corpus chunks with "
+        "every dialect symbol renamed to an unregistered dialect and the last quote / bracket deleted; each text goes "
+        "through the parser and through _raw_scan_balanced alone); a deterministic sweep of every "
         "registered custom-syntax op name and attribute/type name through small templates; (c) short random strings over "
         "a lexer-focused alphabet (lexer correspondence only); (d) growth families at doubling sizes. Non-trivial = the "
         "text is not a verbatim corpus chunk and lexes to >= 5 tokens (or ends in a lexer error after >= 2 tokens); "
@@ -75,6 +102,8 @@ META = {
     "trusted_base": [
         "harness/props/c07.py (sandboxed differential lexing + outcome classification)",
         "hand-written Lean model XdslModel/Lexer.lean of xdsl/utils/mlir_lexer.py (tied by correspondence only)",
+        "hand-written Lean model XdslModel/RawScan.lean of AttrParser._raw_scan_balanced (tied by correspondence only)",
+        "hand-written Lean model XdslModel/SsaNames.lean of Parser.resolve_operand / _register_ssa_definition (tied by correspondence only)",
         "CPython `re` semantics of the lexer's regular expressions (character classes compared for every code point in thorough)",
     ],
     "assumptions": [
@@ -87,6 +116,7 @@ META = {
 
 REC_DEPTH_LIMIT = 25
 CPU_BASE, CPU_PER_CHAR = 2.0, 0.0005
+SMALL_TEXT = 1000   # characters
 
 
 # =============================================================================================
@@ -178,6 +208,36 @@ def _lex_line(text: str) -> str:
     return " ".join(out)
 
 
+_SCAN_MSGS = [("Unterminated string literal in dialect symbol body", "unterminated"),
+              ("Unexpected end of file in dialect symbol body", "eof")]
+
+
+def _scan_line(text: str, pos: int) -> str:
+    """`AttrParser._raw_scan_balanced(pos)` of the real code on `text`, as a line of the `raw_scan` model protocol"""
+    from xdsl.parser import Parser
+    from xdsl.utils.exceptions import ParseError
+
+    try:
+        parser = Parser(_CTX[True], text, "<fuzz>")
+    except ParseError:
+        return "skip"          # the first token of the text does not lex: nothing to scan from
+    scan = getattr(parser, "_raw_scan_balanced", None)
+    if scan is None:
+        return "unavailable"
+    try:
+        r = scan(pos)
+    except ParseError as e:
+        str(e)
+        m = e.msg
+        if m.startswith("Unbalanced '") and len(m) > 12:
+            return f"ERR:unbalanced:{ord(m[12])}:{e.span.start}"
+        mid = next((i for p, i in _SCAN_MSGS if m.startswith(p)), None)
+        if mid == "unterminated":
+            return f"ERR:unterminated:{e.span.start}"
+        return "ERR:eof" if mid == "eof" else "ERR:other-message"
+    return f"ok {r}"
+
+
 def _do_job(job: dict) -> dict:
     from xdsl.parser import Parser
     from xdsl.utils.exceptions import DiagnosticException, ParseError
@@ -191,6 +251,8 @@ def _do_job(job: dict) -> dict:
         try:
             if job["kind"] == "lex":
                 res = {"out": "ok", "lex": _lex_line(text)}
+            elif job["kind"] == "scan":
+                res = {"out": "ok", "scan": _scan_line(text, job["pos"])}
             else:
                 parser = Parser(_CTX[job["allow"]], text, "<fuzz>")
                 if job["entry"] == "module":
@@ -205,7 +267,7 @@ def _do_job(job: dict) -> dict:
     except ParseError as e:
         try:
             str(e)
-            res = {"out": "diag", "cls": type(e).__name__}
+            res = {"out": "diag", "cls": type(e).__name__, "emsg": str(getattr(e, "msg", ""))[:160]}
         except BaseException as e2:  # noqa: BLE001
             site, line = _site_of(e2)
             res = {"out": "esc", "cls": type(e2).__name__, "site": site, "line": line,
@@ -404,9 +466,15 @@ class Sandbox:
 
 
 def fresh_call(job: dict) -> dict:
+    """the job in a new process.  A CPU-budget overrun is measured again in that same process: first-use costs of a
+    new process (lazily built assembly formats, copy-on-write faults after the fork — seconds on a loaded machine)
+    are not part of the parse time of the input"""
     sb = Sandbox()
     try:
-        return sb.call(dict(job))
+        r = sb.call(dict(job))
+        if r["out"] == "budget":
+            r = sb.call(dict(job))
+        return r
     finally:
         sb.close()
 
@@ -455,8 +523,12 @@ def mutate(rng, s: str) -> str:
         k = rng.random()
         i = rng.randrange(len(s) + 1)
         tok = rng.choice(NONASCII) if rng.random() < 0.15 else rng.choice(GRAMMAR)
-        if k < 0.33:
+        if k < 0.29:
             s = s[:i] + tok + s[i:]
+        elif k < 0.32:
+            s = drop_last_of(rng, s)
+        elif k < 0.33:
+            s = unregister_dialect_symbols(s)
         elif k < 0.50:
             s = s[:i] + s[min(len(s), i + rng.choice([1, 1, 2, 3, 5, 8, 13])):]
         elif k < 0.72:
@@ -575,11 +647,20 @@ SSA_PRELUDE = (PRELUDE + '%t:2 = "test.op"() : () -> (i32, i32)\n%z:0 = "test.op
                '%c = "test.op"() : () -> i1\n%i:3 = "test.op"() : () -> (index, index, index)\n')
 # operand spellings: index == arity first (one past the last value), then the other boundary values
 SSA_OPERANDS = ["%t#2", "%0#1", "%z", "%i#3", "%c#1", "%t#1", "%t#0", "%t#3", "%z#0", "%t#99999999999999999999", "%t#", "%t#-1",
-                "%t#0x1", "%t:0", "%t:2", "%undefined", "%undefined#0", "%undefined#1", "%fwd#1", "%t#2#2", "%0#0"]
+                "%t#0x1", "%t:0", "%t:2", "%undefined", "%undefined#0", "%undefined#1", "%fwd#1", "%t#2#2", "%0#0", "%fwd#0", "%fwd#2"]
 SSA_OP_TEMPLATES = ["{n} {a}", "{n} {a}, {a} : i32", "%r = {n} {a} : i32", "{n} %0, {a} : i32", "{n} {a}[{a}] : memref<4xf32>",
                     "{n}({a}) : (i32) -> ()", "{n} ({a} : i32)", "%r = {n} {a}, %1 : index", '{n} "s", {a} : i32',
                     "{n} %w = {a} to {a} step {a} {{", "{n} @f({a}) : (i32) -> ()", "{n} {a} {{\n}}"]
 SSA_TAIL = '\n%fwd:2 = "test.op"() : () -> (i32, i32)\n'
+# in templates with two operand slots the second slot takes the partner: another tuple index of the same forward name
+SSA_PARTNER = {"%fwd#1": "%fwd#0", "%fwd#0": "%fwd#1", "%fwd#2": "%fwd#1", "%undefined#1": "%undefined#0", "%undefined#0": "%undefined#1"}
+
+
+def _second_slot(template: str) -> str:
+    i = template.find("{a}")
+    j = template.find("{a}", i + 1) if i >= 0 else -1
+    return template if j < 0 else template[:j] + "{b}" + template[j + 3:]
+
 _DEF_RE = re.compile(r"^[ \t]*((?:%[\w$.-]+(?::\d+)?[ \t]*,[ \t]*)*%[\w$.-]+(?::\d+)?)[ \t]*=", re.M)
 _REF_RE = re.compile(r"%[A-Za-z0-9_$.-]+")
 
@@ -623,9 +704,12 @@ def ssa_mutate(rng, text: str, focus_count: bool = False) -> str:
             new = name + rng.choice([":0", "#", "#-1", "#0x1", ":2", "#1#1", "# 1", "#01", ":" + str(count), "#x"])
         elif k < 0.82:
             new = rng.choice(["%undefined", "%undefined_q", "%" + name[1:] + "_"]) + rng.choice(["", "#0", "#1", "#2"])
-        elif k < 0.90:
+        elif k < 0.86:
             later = [r.group(0) for r in refs if r.start() > m.start() and r.group(0) != name]
             new = (rng.choice(later) if later else "%fwd") + rng.choice(["", "#0", "#1", f"#{count}"])
+        elif k < 0.90:
+            text = ssa_forward_use(rng, text, ar)
+            continue
         else:
             # change the arity of a definition: `%x = ` -> `%x:0 = ` / `%x:2 = `
             defs = list(_DEF_RE.finditer(text))
@@ -640,20 +724,56 @@ def ssa_mutate(rng, text: str, focus_count: bool = False) -> str:
     return text
 
 
+_RESULT_TYPES_RE = re.compile(r"->\s*\(?([^()\n/]*?)\)?\s*(?:loc\([^/\n]*)?(?://.*)?$")
+
+
+def ssa_forward_use(rng, text: str, ar: dict[str, int]) -> str:
+    """insert, in front of a definition `%x:n = ...`, an operation that uses `%x#i` and `%x#j` (two tuple indices
+    of one not yet defined name; i, j in 0..n, n being one past the end), with the result types of the definition
+    where its line ends in `-> (T0, T1, ...)`, so that the forward references usually resolve"""
+    defs = [d for d in _DEF_RE.finditer(text)]
+    if not defs:
+        return text + '\n"test.op"(%fwd#0, %fwd#1) : (i32, i32) -> ()' + SSA_TAIL
+    multi = [d for d in defs if ":" in d.group(1)]
+    d = rng.choice(multi if multi and rng.random() < 0.7 else defs)
+    part = rng.choice([q.strip() for q in d.group(1).split(",")])
+    name = part.partition(":")[0]
+    n = ar.get(name, 1)
+    eol = text.find("\n", d.end())
+    line = text[d.start():eol if eol >= 0 else len(text)]
+    tm = _RESULT_TYPES_RE.search(line)
+    tys = [t.strip() for t in tm.group(1).split(",")] if tm and "<" not in tm.group(1) else []
+    idx = [rng.randint(0, n) for _ in range(rng.choice([2, 2, 3]))]
+    if len(set(idx)) == 1:
+        idx[-1] = (idx[0] + 1) % (n + 1)
+    ops = ", ".join(f"{name}#{i}" for i in idx)
+    types = ", ".join(tys[i] if i < len(tys) and tys[i] else "i32" for i in idx)
+    indent = re.match(r"[ \t]*", d.group(0)).group(0)
+    use = f'{indent}"test.op"({ops}) : ({types}) -> ()\n'
+    if rng.random() < 0.3:    # the uses in two operations
+        use = "".join(f'{indent}"test.op"({name}#{i}) : ({tys[i] if i < len(tys) and tys[i] else "i32"}) -> ()\n' for i in idx)
+    return text[:d.start()] + use + text[d.start():]
+
+
 def ssa_sweep_cases(rng, quick: bool):
     """deterministic: every registered custom-syntax op name with indexed operands in small templates.  The
     `index == arity` spellings come first; quick takes `%t#2` in the bare template (always run to the end) and
     `%0#1` plus a seeded third spelling in a seeded second template; thorough takes every template with the first five spellings and
     the first template with all spellings."""
+    two_slot = [t for t in SSA_OP_TEMPLATES if t.count("{a}") >= 2]
     if quick:
         operands = SSA_OPERANDS[:2] + [rng.choice(SSA_OPERANDS[2:])]
         templates = [SSA_OP_TEMPLATES[0], rng.choice(SSA_OP_TEMPLATES[1:])]
         combos = [(templates[0], operands[0]), (templates[1], operands[1]), (templates[1], operands[2])]
+        if rng.random() < 0.5:   # two tuple indices of one forward-referenced name in a template with two operand slots
+            combos[2] = (rng.choice(two_slot), rng.choice(["%fwd#1", "%fwd#0", "%fwd#2"]))
     else:
         combos = [(t, a) for t in SSA_OP_TEMPLATES for a in SSA_OPERANDS[:5]] + [(SSA_OP_TEMPLATES[0], a) for a in SSA_OPERANDS[5:]]
+        combos += [(t, a) for t in two_slot for a in ("%fwd#1", "%fwd#0", "%fwd#2")]
     for t, a in combos:
+        t2 = _second_slot(t)
         for name in _NAMES["custom_ops"]:
-            yield "ssa.sweep", "module", SSA_PRELUDE + t.format(n=name, a=a) + SSA_TAIL
+            yield "ssa.sweep", "module", SSA_PRELUDE + t2.format(n=name, a=a, b=SSA_PARTNER.get(a, a)) + SSA_TAIL
 
 
 def sweep_cases(rng, quick: bool):
@@ -668,6 +788,257 @@ def sweep_cases(rng, quick: bool):
         for name in pool:
             for t in ats:
                 yield "sweep.attr", ("attr" if sig == "#" else "type"), t.format(s=sig, n=name)
+
+
+# ---- forward-reference family: `%f#i`, `%f#j` used before `%f:n = ...` is defined -----------------------------
+FWD_TYPES = ["i32", "i64", "index"]
+
+
+def ssa_forward_cases(quick: bool):
+    """small-scope enumeration over generic operations (the operand resolution shared by every format): a value of
+    arity n in {1,2,3} is used with every pair of tuple indices (i, j) in {0..n}^2 (n = one past the end) before / around
+    its definition: both uses in one operation, in two operations, one before and one after the definition, inside
+    a region whose body also holds the definition, inside a region while the definition follows the region's
+    operation, and with the first use inside a nested region and the second one after it; plus the bare spelling
+    `%f` next to `%f#j`, a use with a type the definition does not have, and three uses with three indices."""
+    def use(*ops: tuple[str, str]) -> str:
+        return '"test.op"(' + ", ".join(o for o, _ in ops) + ") : (" + ", ".join(t for _, t in ops) + ") -> ()"
+
+    for n in (1, 2, 3):
+        rtys = FWD_TYPES[:n]
+        d = (f"%f:{n}" if n > 1 else "%f") + ' = "test.op"() : () -> (' + ", ".join(rtys) + ")"
+        for i in range(n + 1):
+            for j in range(n + 1):
+                if quick and n == 3 and (i == j or 0 < min(i, j) < max(i, j) < n):
+                    continue          # quick: arity 3 with the pairs that involve the first / the last / the out-of-range index
+                a = (f"%f#{i}", FWD_TYPES[min(i, 2)])
+                b = (f"%f#{j}", FWD_TYPES[min(j, 2)])
+                yield f"{use(a, b)}\n{d}\n"
+                yield f"{use(a)}\n{use(b)}\n{d}\n"
+                yield f"{use(a)}\n{d}\n{use(b)}\n"
+                yield '"test.op"() ({\n  ' + use(a) + "\n  " + use(b) + "\n  " + d + "\n}) : () -> ()\n"
+                yield '"test.op"() ({\n  ' + use(a) + "\n  " + use(b) + "\n}) : () -> ()\n" + d + "\n"
+                yield '"test.op"() ({\n  "test.op"() ({\n    ' + use(a) + "\n  }) : () -> ()\n  " + use(b) + "\n  " + d + "\n}) : () -> ()\n"
+                if quick and (n != 2 or (i, j) not in ((0, 1), (1, 0), (n, 0), (0, n))):
+                    continue
+                yield f"{use(('%f', 'i32'), b)}\n{d}\n"
+                yield f"{use(a, (b[0], 'f32'))}\n{d}\n"
+                yield f"{use(a, b, ('%f#' + str(max(i, j) + 1), 'i32'))}\n{d}\n"
+                yield f"{use(a, b)}\n{use(b, a)}\n"                                   # never defined
+                yield f"{use(a, b)}\n{d}\n{d}\n"                                      # defined twice
+                yield f"func.func @f() {{\n  {use(a, b)}\n  {d}\n  func.return\n}}\n"
+
+
+# ---- SSA-name programs: generic operations, regions, block arguments; with the event sequence of their parse ----
+SSA_PROG_MSGS = [("tuple index out of bounds", "index-out-of-bounds"), ("operand is used with type", "use-type"),
+                 ("is already defined", "redefined"), ("is referenced with an index larger than its size", "forward-index"),
+                 ("is defined with type", "forward-type"), ("values used but not defined", "used-not-defined")]
+
+
+def gen_ssa_prog(rng) -> tuple[str, str]:
+    """(module text, `prog` line of the `ssa_names` model).  A few names with arities 0-3 and typed elements; uses
+    `%v#i` anywhere (before / after the definition, inside / outside regions), mostly with an index and type the
+    definition has, sometimes one past the end / another type; definitions as operation results or block arguments,
+    sometimes twice or never.  Events in the order in which the parser performs them: for an operation the events
+    of its regions (push, block arguments, body, pop), then its operand uses, then its result definitions."""
+    nn = rng.choice([1, 2, 2, 3, 4])
+    blockarg = {n for n in range(nn) if rng.random() < 0.2}
+    size = {n: 1 if n in blockarg else rng.choice([1, 1, 1, 2, 2, 2, 3, 3, 3, 0]) for n in range(nn)}
+    tys = {n: [rng.randrange(3) for _ in range(size[n])] for n in range(nn)}
+    todo = [n for n in range(nn) if n not in blockarg] + [n for n in range(nn) if n not in blockarg and rng.random() < 0.06]
+    todo_args = [n for n in range(nn) if n in blockarg] + [n for n in range(nn) if n in blockarg and rng.random() < 0.06]
+    rng.shuffle(todo)
+    events: list[str] = []
+
+    def mk_use() -> tuple[int, int, int, bool]:
+        n = rng.randrange(nn)
+        sz = size[n]
+        if sz == 0 or rng.random() < 0.06:
+            i, t = rng.choice([sz, sz + 1, 0]), rng.randrange(3)
+        else:
+            i = rng.randrange(sz)
+            t = tys[n][i] if rng.random() < 0.96 else (tys[n][i] + 1) % 3
+        return n, i, t, (i == 0 and rng.random() < 0.5)
+
+    def one_op(depth: int, indent: str, uses: list, defs: list[int]) -> str:
+        region = ""
+        if depth < 2 and (rng.random() < 0.35 or (todo_args and rng.random() < 0.6)):
+            events.append("push")
+            label = ""
+            args = [todo_args.pop() for _ in range(rng.choice([1, 1, 2])) if todo_args] if rng.random() < 0.8 else []
+            if args or rng.random() < 0.2:
+                label = indent + "^bb0(" + ", ".join(f"%v{a} : {FWD_TYPES[tys[a][0]]}" for a in args) + "):\n"
+                events.extend(f"d {a} {tys[a][0]}" for a in args)
+            body = ops(depth + 1, indent + "  ")
+            events.append("pop")
+            region = " ({\n" + label + body + indent + "})"
+        events.extend(f"u {n} {i} {t}" for n, i, t, _ in uses)
+        events.extend("d " + " ".join(map(str, [d] + tys[d])) for d in defs)
+        res = ", ".join(f"%v{d}" + (f":{size[d]}" if size[d] != 1 or rng.random() < 0.2 else "") for d in defs)
+        rtys = [FWD_TYPES[t] for d in defs for t in tys[d]]
+        return (indent + (res + " = " if defs else "") + '"test.op"(' +
+                ", ".join(f"%v{n}" + ("" if bare else f"#{i}") for n, i, _, bare in uses) + ")" + region +
+                " : (" + ", ".join(FWD_TYPES[t] for _, _, t, _ in uses) + ") -> (" + ", ".join(rtys) + ")\n")
+
+    def ops(depth: int, indent: str) -> str:
+        out = []
+        for _ in range(rng.choice([1, 2, 2, 3])):
+            uses = [mk_use() for _ in range(rng.choice([0, 1, 2, 2, 3]))]
+            defs = []
+            while todo and rng.random() < (0.6 if not defs else 0.25) * (1.0 if depth == 0 else 0.5):
+                defs.append(todo.pop())
+            out.append(one_op(depth, indent, uses, defs))
+        if depth == 0:   # most of the names not defined so far are defined at the end (all uses of them were forward)
+            while todo:
+                d = todo.pop()
+                if rng.random() < 0.85:
+                    out.append(one_op(0, indent, [], [d]))
+        return "".join(out)
+
+    text = ops(0, "")
+    events.append("end")
+    return text, "prog " + " ; ".join(events)
+
+
+# ---- raw-scan family: bodies of unregistered dialect attributes / types (`AttrParser._raw_scan_balanced`) -----
+RAW_PAIRS = {"<": ">", "(": ")", "[": "]", "{": "}"}
+RAW_ATOMS = ["a", "x1", " ", ", ", " = ", ":", "->", "-", "a-b", "-->", "é", "\n", "#", "!t", "?", "*", "0x1F", "1.5", "@f", "%0", "'",
+             "//", "\0", "😀", "\\", "\t", "=", "|", "+"]
+RAW_STR_CHARS = list("abcxyz   ,=<>()[]{}-:/") + ["é"]
+RAW_STR_ESCAPES = ['\\"', "\\\\", "\\n", "\\00", "\\"]
+RAW_BODIES = [
+    '"row_major, tile = [4, 4]"',
+    'a<b>, "x>\\"" -> (c)',
+    '"s", {k = "v w x y z 0 1 2 3 4 5 6 7 8 9 a b c d e f"}, [1, 2]',
+    "(a -> b) -> <c>",
+    '"\\\\"',
+    "",
+    '"' + "a" * 40 + '"',
+    'x = "ab\\"cd\\"ef gh ij kl mn op qr st uv wx yz 01 23 45 67 89"',
+    '[("a", "b"), {"c"}], "a string that is followed by nothing else with a quote"',
+    "a - > b, ->, -",
+    'é "😀" λ, "tail of the body: no further quote up to the end of the text"',
+    '"<" , ">" , "(" , ")]}"',
+]
+# (entry point, text before the body, text after the body); the scan starts right after the `<` of the prefix
+RAW_WRAPPERS = [
+    ("module", '"test.op"() {a = #zz.n<', ">} : () -> () loc(unknown)"),
+    ("attr", "#zz.n<", ">"),
+    ("type", "!zz.n<", ">"),
+    ("attr", "#zz<n ", ">"),
+    ("type", "!zz<n ", ">"),
+    ("module", '%0 = "test.op"() : () -> !zz.n<', ">"),
+    ("module", '"test.op"() {a = #zz<n ', ">, b = unit} : () -> ()"),
+    ("module", "func.func private @f(!zz.n<", ">) -> ()"),
+    ("module", '"test.op"() ({\n^b(%a : !zz<n ', ">):\n}) : () -> ()"),
+]
+RAW_MUTATIONS = ["none", "drop_last_quote", "drop_last_closer", "drop_final_gt", "drop_random_quote", "drop_random_closer",
+                 "drop_random_opener", "insert_closer", "truncate", "backslash_before_last_quote", "swap_closers", "drop_first_quote"]
+
+
+def raw_string(rng) -> str:
+    """a string literal; half of them long (>= 32 characters) and free of backslashes"""
+    n = rng.choice([0, 1, 3, 8, 33, 40, 70])
+    esc = rng.random() < 0.4
+    return '"' + "".join(rng.choice(RAW_STR_ESCAPES[:4]) if esc and rng.random() < 0.2 else rng.choice(RAW_STR_CHARS) for _ in range(n)) + '"'
+
+
+def raw_body(rng, depth: int = 0) -> str:
+    """a balanced body: atoms, string literals (brackets inside them do not count) and bracketed sub-bodies"""
+    parts = []
+    for _ in range(rng.choice([0, 1, 1, 2, 3, 5])):
+        k = rng.random()
+        if k < 0.25 and depth < 4:
+            o = rng.choice("<([{")
+            parts.append(o + raw_body(rng, depth + 1) + RAW_PAIRS[o])
+        elif k < 0.50:
+            parts.append(raw_string(rng))
+        else:
+            parts.append(rng.choice(RAW_ATOMS))
+    return "".join(parts)
+
+
+def _drop_at(s: str, i: int) -> str:
+    return s[:i] + s[i + 1:]
+
+
+def raw_mutate(rng, kind: str, prefix: str, body: str, suffix: str) -> str:
+    """one truncation-style edit of `prefix body suffix` (positions are chosen inside the body where possible)"""
+    text = prefix + body + suffix
+    lo, hi = len(prefix), len(prefix) + len(body)
+
+    def positions(chars: str) -> list[int]:
+        return [i for i in range(lo, hi) if text[i] in chars]
+
+    if kind == "drop_last_quote":          # the closing quote of the last string of the text
+        i = text.rfind('"')
+        return _drop_at(text, i) if i >= 0 else text
+    if kind == "drop_first_quote":
+        ps = positions('"')
+        return _drop_at(text, ps[0]) if ps else text
+    if kind == "drop_random_quote":
+        ps = positions('"')
+        return _drop_at(text, rng.choice(ps)) if ps else text
+    if kind == "drop_last_closer":
+        ps = positions(">)]}")
+        return _drop_at(text, ps[-1]) if ps else text
+    if kind == "drop_final_gt":            # the `>` that closes the body
+        return _drop_at(text, hi) if suffix.startswith(">") else text
+    if kind == "drop_random_closer":
+        ps = positions(">)]}")
+        return _drop_at(text, rng.choice(ps)) if ps else text
+    if kind == "drop_random_opener":
+        ps = positions("<([{")
+        return _drop_at(text, rng.choice(ps)) if ps else text
+    if kind == "insert_closer":
+        i = rng.randint(lo, hi)
+        return text[:i] + rng.choice(">)]}") + text[i:]
+    if kind == "truncate":
+        return text[:rng.randint(lo, max(lo, hi))]
+    if kind == "backslash_before_last_quote":
+        i = text.rfind('"')
+        return text[:i] + "\\" + text[i:] if i >= 0 else text
+    if kind == "swap_closers":
+        ps = positions(">)]}")
+        if len(ps) >= 2:
+            a, b = rng.sample(ps, 2)
+            t = list(text)
+            t[a], t[b] = t[b], t[a]
+            return "".join(t)
+    return text
+
+
+def rawscan_cases(rng, quick: bool):
+    """(entry, text, scan position): every fixed body and seeded random bodies under the edits of RAW_MUTATIONS;
+    thorough: every fixed body under every wrapper and edit; quick: that for the first body, the wrapper rotates for
+    the others, which get the unedited text, the deleted last quote and four seeded edits"""
+    bodies = RAW_BODIES + [raw_body(rng) for _ in range(6 if quick else 300)]
+    for bi, body in enumerate(bodies):
+        wrappers = [RAW_WRAPPERS[bi % len(RAW_WRAPPERS)]] if quick and bi >= 1 else RAW_WRAPPERS
+        kinds = RAW_MUTATIONS
+        if not quick and bi >= len(RAW_BODIES):
+            wrappers = rng.sample(RAW_WRAPPERS, 2)
+        if quick and bi >= 1:     # quick: the first body under every wrapper and edit, the others under half of the edits
+            kinds = RAW_MUTATIONS[:2] + rng.sample(RAW_MUTATIONS[2:], 4)
+        for entry, prefix, suffix in wrappers:
+            for kind in kinds:
+                yield entry, raw_mutate(rng, kind, prefix, body, suffix), len(prefix)
+
+
+_DIALECT_SYM_RE = re.compile(r"([#!])([A-Za-z_][\w$]*)(?=[.<])")
+
+
+def unregister_dialect_symbols(text: str) -> str:
+    """`#llvm.x<...>` -> `#zz_llvm.x<...>`: every dialect attribute / type of the text gets an unregistered dialect
+    name, so that its body is raw-scanned instead of being parsed by the dialect's parser"""
+    return _DIALECT_SYM_RE.sub(lambda m: m.group(1) + "zz_" + m.group(2), text)
+
+
+def drop_last_of(rng, text: str) -> str:
+    """delete the last occurrence of a closing quote / bracket (the typical incomplete edit)"""
+    ch = rng.choice(['"', '"', '"', ">", ")", "]", "}"])
+    i = text.rfind(ch)
+    return _drop_at(text, i) if i >= 0 else text
 
 
 LEX_ALPHA = list('"\\\n\v\f\t /.-{#}@!^%>x0123456789abefABEFxX_$+-:,()[]<>=*?|') + [
@@ -727,6 +1098,15 @@ def is_failure(res: dict, text: str) -> bool:
     return True
 
 
+def job_for(entry: str, allow: bool, text: str) -> dict:
+    """entry: module / attr / type (the parser), lex (the lexer alone), scan:<pos> (`_raw_scan_balanced(pos)` alone)"""
+    if entry == "lex":
+        return {"kind": "lex", "text": text}
+    if entry.startswith("scan:"):
+        return {"kind": "scan", "text": text, "pos": min(int(entry[5:]), len(text))}
+    return {"kind": "parse", "entry": entry, "allow": allow, "text": text}
+
+
 class Explorer:
     def __init__(self, ctx: core.Ctx):
         self.ctx = ctx
@@ -739,6 +1119,9 @@ class Explorer:
         self.outcomes: Counter[str] = Counter()
         self.max_cpu_per_char = 0.0
         self.lex_lines: list[tuple[str, str]] = []   # (text, impl line)
+        self.scan_lines: list[tuple[str, int, str]] = []   # (text, pos, impl line)
+        self.scan_unavailable = 0
+        self.prog_lines: list[tuple[str, str, str]] = []   # (text, model input line, impl outcome)
         self.rec_depths: list[int] = []
         self.shrink_steps = 60 if ctx.tier == "quick" else 400
 
@@ -763,7 +1146,7 @@ class Explorer:
         return res
 
     def job_for(self, entry: str, allow: bool, text: str) -> dict:
-        return {"kind": "lex", "text": text} if entry == "lex" else self.job(entry, allow, text)
+        return job_for(entry, allow, text)
 
     def same(self, entry: str, allow: bool, text: str, key: tuple[str, str], wall: float | None = None) -> bool:
         job = self.job_for(entry, allow, text)
@@ -834,6 +1217,28 @@ class Explorer:
         ctx.count(f"lex.{stream}.{res['out']}")
         if is_failure(res, text):
             self.failure("lex." + stream, "lex", False, text, res)
+
+
+    # -- `_raw_scan_balanced` alone, for the correspondence with the `raw_scan` model ---------------
+    def scan(self, stream: str, text: str, pos: int) -> None:
+        ctx = self.ctx
+        res = self.sb.call({"kind": "scan", "text": text, "pos": pos})
+        ctx.ev()
+        if res["out"] == "ok":
+            line = res["scan"]
+            if line == "unavailable":
+                self.scan_unavailable += 1
+                return
+            if line == "skip":
+                ctx.count(f"{stream}.scan.first_token_does_not_lex")
+                return
+            ctx.count(f"{stream}.scan." + line.split(":")[0].split()[0] + (":" + line.split(":")[1] if line.startswith("ERR:") else ""))
+            ctx.nt("scan:" + hashlib.sha1(f"{pos}\0{text}".encode("utf-8", "surrogatepass")).hexdigest()[:16])
+            self.scan_lines.append((text, pos, line))   # a ParseError with a message the model does not know: a mismatch there
+            return
+        ctx.count(f"{stream}.scan.{res['out']}")
+        if is_failure(res, text):
+            self.failure(stream + ".scan", f"scan:{pos}", True, text, res)
 
 
 def shrink_text(text: str, pred, max_steps: int, keep_long: bool = False) -> str:
@@ -918,6 +1323,17 @@ FAMILIES: dict[str, Any] = {
     "fused_loc": lambda n: '"test.op"() : () -> () loc(fused[' + ", ".join(['"a"'] * n) + "])",
     "unregistered_attr_body": lambda n: '"test.op"() {a = #foo.bar<' + "a(b)" * n + ">} : () -> ()",
     "unregistered_attr_nested": lambda n: '"test.op"() {a = #foo.bar<' + "<" * n + ">" * n + ">} : () -> ()",
+    # bodies of unregistered dialect attributes / types are not lexed but raw-scanned (`_raw_scan_balanced`)
+    "unterminated_string_in_unregistered_attr": lambda n: '"test.op"() {a = #foo.bar<"' + "a" * n + ">} : () -> ()",
+    "unterminated_string_in_unregistered_type": lambda n: '%0 = "test.op"() : () -> !foo.bar<"' + "a" * n + ">",
+    "unterminated_string_in_opaque_attr": lambda n: '"test.op"() {a = #foo<bar "' + "ab " * n + ">} : () -> ()",
+    "unterminated_string_with_escapes_in_unregistered_attr": lambda n: '"test.op"() {a = #foo.bar<"' + 'ab\\"' * n + ">} : () -> ()",
+    "unterminated_string_nested_in_unregistered_attr": lambda n: '"test.op"() {a = #foo.bar<[(x, {k = "' + "a, " * n + "})]>} : () -> ()",
+    "long_string_in_unregistered_attr": lambda n: '"test.op"() {a = #foo.bar<"' + "a" * n + '">} : () -> ()',
+    "many_strings_in_unregistered_attr": lambda n: '"test.op"() {a = #foo.bar<' + '"a", ' * n + ">} : () -> ()",
+    "string_escapes_in_unregistered_attr": lambda n: '"test.op"() {a = #foo.bar<"' + 'a\\"\\\\' * n + '">} : () -> ()',
+    "unclosed_unregistered_attr_body": lambda n: '"test.op"() {a = #foo.bar<' + "(a" * n,
+    "unregistered_attr_arrows": lambda n: '"test.op"() {a = #foo.bar<' + "->-" * n + ">} : () -> ()",
     "error_after_many_lines": lambda n: _ops(n, '%$ = "test.op"() : () -> i32\n') + "}",
     "undefined_values_at_end": lambda n: '"test.op"(' + ", ".join(f"%u{i}" for i in range(n)) + ") : (" + ", ".join(["i32"] * n) + ") -> ()",
     "func_many_args": lambda n: "func.func @f(" + ", ".join(f"%a{i} : i32" for i in range(n)) + ") {\n  func.return\n}",
@@ -942,7 +1358,10 @@ def run_family(ex: Explorer, name: str, nmax: int, chars_max: int, cap: float) -
         if len(text) > chars_max:
             break
         job = ex.job("module", True, text)
-        job["cpu"] = max(CPU_BASE + CPU_PER_CHAR * len(text), 8.0)
+        # texts below 1 kB run under the per-parse guard of every other stream (exceeding it is "no prompt
+        # termination" whatever the ratios say); larger ones get room for the ratio measurement
+        small = len(text) < SMALL_TEXT
+        job["cpu"] = CPU_BASE + CPU_PER_CHAR * len(text) if small else max(CPU_BASE + CPU_PER_CHAR * len(text), 8.0)
         res = ex.sb.call(job)
         ctx.ev()
         ctx.count(f"growth.{name}.{res['out']}" + (":" + res["cls"] if res["out"] in ("diag", "esc") else ""))
@@ -955,7 +1374,7 @@ def run_family(ex: Explorer, name: str, nmax: int, chars_max: int, cap: float) -
         if res["out"] not in ("ok", "diag"):
             break
         pts.append((n, len(text), res["cpu"]))
-        if res["cpu"] > cap:
+        if res["cpu"] > cap and not small:
             break
     ctx.extra.setdefault("growth", {})[name] = [[n, c, round(t, 4)] for n, c, t in pts][-6:]
     if len(pts) < 2:
@@ -1058,6 +1477,122 @@ def run_correspondence(ctx: core.Ctx, ex: Explorer) -> None:
     ctx.extra["model_steps_per_codepoint_max"] = round(worst, 3)
 
 
+def run_rawscan(ctx: core.Ctx, ex: "Explorer", chunks: list[str], quick: bool) -> None:
+    """bodies of unregistered dialect attributes / types: every text through the parser (outcome class, CPU guard)
+    and through `_raw_scan_balanced` alone (compared with the Lean model afterwards)"""
+    rng = ctx.rng
+    for entry, text, pos in rawscan_cases(rng, quick):
+        ex.parse("rawscan", entry, True, text)
+        ex.scan("rawscan", text, pos)
+        if ex.slow >= 4:
+            return
+    # corpus chunks whose dialect attributes / types get an unregistered dialect name, as they are and with the last
+    # closing quote / bracket of the text deleted
+    cand = [c for c in chunks if len(c) <= 2500 and '"' in c and _DIALECT_SYM_RE.search(c)]
+    for c in rng.sample(cand, min(len(cand), 20 if quick else len(cand))):
+        u = unregister_dialect_symbols(c)
+        for t in [u, _drop_at(u, u.rfind('"'))] + [drop_last_of(rng, u) for _ in range(1 if quick else 3)]:
+            ex.parse("rawscan.corpus", "module", True, t, seed_text=c)
+            m = re.search(r"[#!]zz_[\w$.]*<", t)
+            if m:
+                ex.scan("rawscan.corpus", t, m.end())
+        if ex.slow >= 4:
+            return
+
+
+def run_ssa_progs(ctx: core.Ctx, ex: "Explorer", n: int) -> None:
+    """generated SSA-name programs through `Parser.parse_module`; the outcome (IR / which ParseError) is kept for
+    the comparison with the `ssa_names` model"""
+    for i in range(n):
+        text, line = gen_ssa_prog(ctx.rng)
+        res = ex.parse("ssa.prog", "module", i % 2 == 0, text)
+        if res["out"] == "ok":
+            ex.prog_lines.append((text, line, "ok"))
+        elif res["out"] == "diag":
+            m = res.get("emsg", "")
+            ex.prog_lines.append((text, line, "ERR:" + next((i for p, i in SSA_PROG_MSGS if p in m), "other:" + m[:60])))
+        if ex.slow >= 4:
+            return
+
+
+def run_prog_correspondence(ctx: core.Ctx, ex: "Explorer") -> None:
+    rows = ex.prog_lines
+    if not rows:
+        return
+    model = ctx.model("ssa_names", [l for _, l, _ in rows])
+    bad = 0
+    kinds: Counter[str] = Counter()
+    for (text, line, impl), m in zip(rows, model):
+        kinds[m] += 1
+        if m.startswith("INTERNAL"):
+            ctx.mismatch("theorem:run_no_internal", {"events": line}, None, m, "the model reached a failing subscript")
+        if impl.startswith("ERR:other:") and m.startswith("ERR:"):
+            # a diagnostic whose wording the harness does not know (reworded message): both sides report a ParseError,
+            # which is all the property asks for; counted, not flagged
+            ctx.count("ssa.prog.diagnostic_with_unknown_wording")
+            continue
+        if impl != m:
+            bad += 1
+            if bad == 1:
+                ctx.mismatch("correspondence:C07/ssa_names", {"stream": "ssa.prog", "entry": "module", "text": text, "events": line},
+                             impl, m, "outcome of Parser.parse_module (IR / which ParseError) differs from the SSA-name table model")
+    for k, v in kinds.items():
+        ctx.count("ssa.prog.model." + k, v)
+    ctx.count("ssa.prog.correspondence_compared", len(rows))
+    ctx.count("ssa.prog.correspondence_mismatch", bad)
+
+
+def run_scan_correspondence(ctx: core.Ctx, ex: "Explorer") -> None:
+    """result / error kind / position of the real `_raw_scan_balanced` against `RawScan.scan`; the model's own
+    iteration count against the proved bounds (`scan_steps_le`, `scan_ok_steps`)"""
+    rows = ex.scan_lines
+    ctx.extra["raw_scan_direct_calls_unavailable"] = ex.scan_unavailable
+    if not rows:
+        return
+
+    def enc(text: str, pos: int) -> str:
+        return f"scan {pos} " + " ".join(f"{ord(c):x}" for c in text)
+
+    model = ctx.model("raw_scan", [enc(t, p) for t, p, _ in rows])
+    bad = 0
+    worst = 0.0
+    for (text, pos, impl), m in zip(rows, model):
+        res, _, tail = m.partition(" steps ")
+        w = tail.split()
+        if len(w) == 2:
+            steps, n = int(w[0]), int(w[1])
+            worst = max(worst, steps / (n + 1))
+            limit = n + 1
+            if res.startswith("ok "):
+                limit = min(limit, int(res[3:]) - pos + 1)
+            if steps > limit:
+                ctx.mismatch("theorem:scan_steps_le", {"text": text, "pos": pos, "steps": steps, "n": n}, None, m,
+                             "model iteration count above the proved bound")
+        if impl != res:
+            bad += 1
+            if bad == 1:
+                def differs(t: str) -> bool:
+                    r = ex.sb.call({"kind": "scan", "text": t, "pos": min(pos, len(t))})
+                    return (r["out"] == "ok" and r["scan"] not in ("skip", "unavailable")
+                            and ctx.model("raw_scan", [enc(t, min(pos, len(t)))])[0].partition(" steps ")[0] != r["scan"])
+
+                # shrink the part after the scan position only (the prefix holds the first token and the position)
+                head, rest = text[:pos], text[pos:]
+                if len(rest) > 8:
+                    rest = "".join(core.shrink_list(list(rest), lambda c: differs(head + "".join(c)), 80))
+                small = head + rest
+                r = ex.sb.call({"kind": "scan", "text": small, "pos": pos})
+                impl2 = r.get("scan", impl)
+                m2 = ctx.model("raw_scan", [enc(small, pos)])[0].partition(" steps ")[0]
+                if impl2 == m2:
+                    small, impl2, m2 = text, impl, res
+                ctx.mismatch("correspondence:C07/raw_scan", {"stream": "rawscan", "entry": f"scan:{pos}", "text": small}, impl2, m2,
+                             "position / ParseError of AttrParser._raw_scan_balanced differs from the Lean model")
+    ctx.count("rawscan.correspondence_compared", len(rows))
+    ctx.count("rawscan.correspondence_mismatch", bad)
+    ctx.extra["raw_scan_model_steps_per_codepoint_max"] = round(worst, 3)
+
+
 def run_classes(ctx: core.Ctx, full: bool) -> None:
     """class membership of every code point: the lexer's own compiled regexes vs the model's ASCII tests"""
     import string
@@ -1116,9 +1651,22 @@ def run(ctx: core.Ctx) -> None:
     ex = Explorer(ctx)
     samples = token_samples()
     ctx.count("corpus.chunks", len(chunks))
+    stage_s: dict[str, float] = {}
+    t_mark = [time.time()]
+
+    def mark(name: str) -> None:
+        """wall seconds of the stage that just ended (evidence only)"""
+        now = time.time()
+        if name != "start":
+            stage_s[name] = round(now - t_mark[0], 1)
+        t_mark[0] = now
+
+    ctx.extra["stage_s"] = stage_s
     try:
+        mark("start")
         run_classes(ctx, not quick)
 
+        mark("classes")
         # (0) a few fixed probes (minimal inputs of the repaired defects stay in the stream)
         probes = [("module", '"' + "a" * 22), ("module", "{a = ²}"), ("module", '"test.op"() {a = ²} : () -> ()'),
                   ("module", '"test.op"() {a = ٣} : () -> ()'), ("attr", "½"), ("module", '@"' + "b" * 22),
@@ -1129,10 +1677,12 @@ def run(ctx: core.Ctx) -> None:
             ex.parse("probe", entry, True, t)
             ex.lex("probe", t)
 
+        mark("probes")
         # warm-up: unmutated corpus chunks (must be IR or a diagnostic), so that first-use costs are not measured below
         for c in rng.sample(chunks, 40 if quick else len(chunks)):
             ex.parse("corpus.verbatim", "module", True, c, seed_text=c)
 
+        mark("warmup")
         # (0b) SSA-reference family, deterministic part: indexed operands in every custom-syntax op (before the
         # time-boxed stages, so that a loaded machine does not cut it), then corpus chunks with one operand use
         # rewritten to `%x#<arity of its definition>`
@@ -1147,6 +1697,21 @@ def run(ctx: core.Ctx) -> None:
             for _ in range(1 if quick else 4):
                 ex.parse("ssa.corpus_index_eq_arity", "module", i % 2 == 0, ssa_mutate(rng, c, True), seed_text=c)
 
+        mark("ssa_sweep")
+        # (0c) forward references with tuple indices (`%f#i`, `%f#j` before `%f:n = ...`): small-scope enumeration
+        for i, text in enumerate(ssa_forward_cases(quick)):
+            ex.parse("ssa.forward", "module", i % 2 == 0, text)
+            if ex.slow >= 4:
+                break
+
+        mark("ssa_forward")
+        run_ssa_progs(ctx, ex, 100 if quick else 6000)
+
+        mark("ssa_progs")
+        # (0d) raw scan of the bodies of unregistered dialect attributes / types
+        run_rawscan(ctx, ex, chunks, quick)
+
+        mark("rawscan")
         # (1) growth families: small sizes first, so that an exponential matcher is caught by ratio, not by a hang
         fam_budget = ctx.budget_s * (0.22 if quick else 0.25)
         t_f = time.time()
@@ -1161,6 +1726,7 @@ def run(ctx: core.Ctx) -> None:
                 continue
             run_family(ex, name, 4096 if quick else 262144, 60_000 if quick else 1_500_000, 0.6 if quick else 1.5)
 
+        mark("growth")
         # (2) short random strings: lexer correspondence only
         n_lex = 2000 if quick else 60000
         for _ in range(n_lex):
@@ -1168,6 +1734,7 @@ def run(ctx: core.Ctx) -> None:
             if ex.slow >= 4:
                 break
 
+        mark("lex_random")
         # (3) mutated corpus chunks and soups through the whole parser (and the lexer alone)
         small = [c for c in chunks if len(c) <= 2500]
         it = 0
@@ -1190,6 +1757,11 @@ def run(ctx: core.Ctx) -> None:
                 ex.parse(stream, "module", allow, text, seed_text=seed)
                 if it % 3 == 0:
                     ex.lex("mutation", text)
+            elif it % 15 == 8:
+                entry, prefix, suffix = rng.choice(RAW_WRAPPERS)
+                text = raw_mutate(rng, rng.choice(RAW_MUTATIONS), prefix, raw_body(rng), suffix)
+                ex.parse("rawscan.random", entry, True, text)
+                ex.scan("rawscan.random", text, len(prefix))
             else:
                 stream, entry, text = gen_soup_case(rng, samples)
                 ex.parse(stream, entry, allow, text)
@@ -1200,7 +1772,11 @@ def run(ctx: core.Ctx) -> None:
         ctx.count("fuzz.iterations", it)
         if ex.slow >= 4:
             ctx.count("fuzz.stopped_after_four_budget_or_hang_failures")
+        mark("fuzz")
         run_correspondence(ctx, ex)
+        run_scan_correspondence(ctx, ex)
+        run_prog_correspondence(ctx, ex)
+        mark("correspondence")
     finally:
         ex.sb.close()
     for t, l in ex.lex_lines[:: max(1, len(ex.lex_lines) // 3)][:3]:
@@ -1242,11 +1818,34 @@ def replay(ctx: core.Ctx, body: dict) -> int:
     entry = case.get("entry", "module")
     print("text          :", repr(text)[:2000])
     bad = False
+    if entry.startswith("scan:"):
+        pos = min(int(entry[5:]), len(text))
+        r = fresh_call(job_for(entry, True, text))
+        print(f"_raw_scan_balanced({pos}):", r.get("scan", {k: v for k, v in r.items()}))
+        if r["out"] != "ok":
+            bad = is_failure(r, text)
+        elif r["scan"] not in ("skip", "unavailable"):
+            core.lake_build(["driver"])
+            m = ctx.model("raw_scan", [f"scan {pos} " + " ".join(f"{ord(c):x}" for c in text)])[0]
+            print("lean model    :", m)
+            bad = m.partition(" steps ")[0] != r["scan"] or r["scan"] == "ERR:other-message"
+        print("expected      : the position of the matching `>` or one of the three ParseErrors of the function, within the CPU budget")
+        print("STILL FAILING" if bad else "no longer failing")
+        return 1 if bad else 0
     if entry != "lex" and case.get("stream") != "lex":
         res = fresh_call({"kind": "parse", "entry": entry, "allow": case.get("allow_unregistered", True), "text": text})
         print("parser outcome:", {k: v for k, v in res.items() if k != "lex"})
         bad = is_failure(res, text)
         print("expected      : IR, ParseError or DiagnosticException within the CPU budget")
+        if case.get("events") and res["out"] in ("ok", "diag"):
+            # SSA-name program: the outcome against the `ssa_names` model on the event sequence of the parse
+            em = res.get("emsg", "")
+            impl = "ok" if res["out"] == "ok" else "ERR:" + next((i for p, i in SSA_PROG_MSGS if p in em), "other:" + em[:60])
+            core.lake_build(["driver"])
+            m = ctx.model("ssa_names", [case["events"]])[0]
+            print("events        :", case["events"])
+            print("ssa_names     :", m, "| parser:", impl)
+            bad = bad or (impl != m and not (impl.startswith("ERR:other:") and m.startswith("ERR:")))
     r = fresh_call({"kind": "lex", "text": text})
     print("lexer         :", r.get("lex", r))
     if r["out"] == "ok":
